@@ -55,7 +55,7 @@ def main():
     c.oblige("Gen_registry.registry_wf (every interned unit of the shipped modules is well-formed)", ok, log)
     for u in exp["units"]:
         c.count(["registry", u["f"], u["p"]])
-    nh, nops = (300, 25) if c.tier == "quick" else (4000, 50)
+    nh, nops = (300, 25) if c.tier == "quick" else (1500, 45)
     hists = [G.gen_history(c.rng, c.rng.randint(4, nops), 4, names) for _ in range(nh)]
     # corpus first
     corpus = os.path.join(ROOT, "corpus", "C01")
